@@ -37,6 +37,7 @@ CONSTANTS
     Forms,        \* subset of {"guard", "call"}: how a frame is entered synchronously
     MaxFrames, MaxTasks, MaxDepth,
     Panics,       \* BOOLEAN: include panic unwinding
+    Discards,     \* BOOLEAN: include dropping idle frames / tasks
     Emit          \* BOOLEAN: print one REPLAY line per transition
 
 Threads == 1..NThreads
@@ -197,6 +198,22 @@ Complete(t) ==
     /\ cx' = [CxPop(cx, t, "done") EXCEPT !.tk[Top(cx, t).k] = NoTask("done")]
     /\ Log([op |-> "complete", t |-> t, s |-> StoreOfFrame(cx, Top(cx, t).f), k |-> Top(cx, t).k])
 
+\* A frame that is not entered is dropped by thread t without ever being entered again: the
+\* Frame value is dropped (close), or its raw parts are (an erased frame's own Drop), or closed
+\* by hand.  It leaves no trace - and nothing may be leaked (the harness counts live frames).
+Discard(t, f) ==
+    /\ Discards
+    /\ cx.fr[f].st = "idle"
+    /\ cx' = [cx EXCEPT !.fr[f] = NoFrame("dead")]
+    /\ Log([op |-> "discard", t |-> t, s |-> StoreOfFrame(cx, f), f |-> f])
+
+\* a task (frame-wrapped future) that is not being polled is dropped, polled before or not
+DropTask(t, k) ==
+    /\ Discards
+    /\ cx.tk[k].st = "idle"
+    /\ cx' = [cx EXCEPT !.fr[cx.tk[k].f] = NoFrame("dead"), !.tk[k] = NoTask("done")]
+    /\ Log([op |-> "droptask", t |-> t, s |-> StoreOfFrame(cx, cx.tk[k].f), k |-> k])
+
 \* a panic at the current program point of t, caught below everything t has entered
 Panic(t) ==
     /\ Panics
@@ -216,6 +233,8 @@ Next ==
     \/ \E t \in Threads : Yield(t)
     \/ \E t \in Threads : Complete(t)
     \/ \E t \in Threads : Panic(t)
+    \/ \E t \in Threads, f \in Frames : Discard(t, f)
+    \/ \E t \in Threads, k \in Tasks : DropTask(t, k)
 
 Spec == Init /\ [][Next]_cvars
 
